@@ -302,3 +302,25 @@ def effective_stmts(stmt):
                 out += effective_stmts(k) if k.kind == 'CompoundStmt' else ([] if is_noop_stmt(k) else [k])
         return out
     return [] if is_noop_stmt(stmt) else [stmt]
+
+
+def effectively_const(func, vardecl):
+    """the local is declared `const`, or nothing in the function (lambdas included) assigns to
+    it, increments / decrements it or takes its address"""
+    if (vardecl.type or '').startswith('const '):
+        return True
+    if func.body is None or vardecl.id is None:
+        return False
+    for n in func.body.walk(into_lambdas=True):
+        tgt = None
+        if n.kind in ('BinaryOperator', 'CompoundAssignOperator') and \
+                (n.op == '=' or n.kind == 'CompoundAssignOperator') and n.kids:
+            tgt = n.kids[0]
+        elif n.kind == 'UnaryOperator' and n.op in ('++', '--', '&') and n.kids:
+            tgt = n.kids[0]
+        elif n.kind == 'CXXOperatorCallExpr' and n.callee_name() in ('operator=', 'operator++', 'operator--') \
+                and len(n.kids) > 1:
+            tgt = n.kids[1]
+        if tgt is not None and tgt.kind == 'DeclRefExpr' and (tgt.ref or {}).get('id') == vardecl.id:
+            return False
+    return True
